@@ -157,6 +157,17 @@ def h_edgetypes(ctx):
     run_cell(ctx, shape, metric, None, typ, variant)
 
 
+def h_degenerate(ctx):
+    """degenerate but well-formed datasets, drawn: one lead time, one time, one location, no valid observation at all - with the
+    default axis and with the axis that has a single value"""
+    p = ctx.params
+    shape = ctx.choose("shape", p["dshapes"], free=True)
+    metric = ctx.choose("metric", p["metrics"], free=True)
+    x = ctx.choose("x", p["dx"], free=True)
+    typ = ctx.choose("type", p["dtypes"], free=True)
+    run_cell(ctx, shape, metric, x, typ, ())
+
+
 def params_for(tier):
     metrics = metric_names() + DIAGRAMS
     variants = [("-r", "1,2,3"), ("-q", "0.1,0.9"), ("-r", "2"), ("-q", "0.5")]
@@ -171,13 +182,15 @@ def params_for(tier):
         return {"metrics": metrics, "shapes": ["regular"], "types": ["csv", "text", "plot"],
                 "vx": [None, "threshold"], "vtypes": ["csv"], "variants": variants,
                 "ishapes": ["missing_slice", "regular"], "ix": [None, "location"], "iaggs": [None, "min", "range", "0.5"], "irs": irs,
-                "etypes": et, "evariants": ev, "eshapes": ["regular", "one_input", "three_inputs"], "fs_more": False}
+                "etypes": et, "evariants": ev, "eshapes": ["regular", "one_input", "three_inputs"], "fs_more": False,
+                "dshapes": ["single_leadtime", "no_valid_pair", "single_time", "single_location"], "dx": [None], "dtypes": ["plot"]}
     return {"metrics": metrics, "shapes": ["regular", "single_time", "single_location", "missing_slice"],
             "types": TYPES_ALL, "vx": [None, "threshold", "no", "location"], "vtypes": ["csv", "plot"],
             "variants": variants,
             "ishapes": ["missing_slice", "regular", "single_time", "single_location"], "ix": [None, "location", "time", "no"],
             "iaggs": [None] + AGGS, "irs": irs + [("-r", "50")],
-            "etypes": et + ["plot"], "evariants": ev, "eshapes": ["regular", "missing_slice", "single_location", "one_input", "three_inputs"], "fs_more": True}
+            "etypes": et + ["plot"], "evariants": ev, "eshapes": ["regular", "missing_slice", "single_location", "one_input", "three_inputs"], "fs_more": True,
+            "dshapes": ["single_leadtime", "no_valid_pair", "single_time", "single_location"], "dx": [None, "leadtime", "no", "time", "location"], "dtypes": ["plot", "csv", "map", "rank"]}
 
 
 def run(tier, only=None):
@@ -212,6 +225,13 @@ def run(tier, only=None):
             "edgetypes", st, bound="full product %d metrics x %d output types x %d threshold variants x %d shapes"
             % (len(p["metrics"]), len(p["etypes"]), len(p["evariants"]), len(p["eshapes"])),
             rule="as grid; thresholds outside the data range make every score NaN", wall=time.time() - t0))
+    if only in (None, "degenerate"):
+        t0 = time.time()
+        st = explore.explore(h_degenerate, mode="full", params=p, repo_root=core.REPO)
+        subs.append(core.Sub.from_e1(
+            "degenerate", st, bound="full product %d degenerate shapes (one lead time, no valid observation, one time, one location) x %d metrics/diagrams x %d -x x %d output types"
+            % (len(p["dshapes"]), len(p["metrics"]), len(p["dx"]), len(p["dtypes"])),
+            rule="as grid, on degenerate but well-formed datasets", wall=time.time() - t0))
     if only in (None, "masses"):
         t0 = time.time()
         st = explore.explore(h_masses, mode="full", params=p, repo_root=core.REPO)
